@@ -158,7 +158,7 @@ def gen_history(rnd: random.Random, nsteps: int, profile: str = 'mixed', big: bo
                 idx = idx + idx[:2]
             nh = rnd.random() < (0.7 if profile == 'dedup' else 0.5)
             ops.append({'op': k, 'idx': idx, 'compress': rnd.random() < 0.5, 'no_holes': nh,
-                        'read_twice': rnd.random() < 0.5})
+                        'read_twice': rnd.random() < 0.5, 'do_fsync': rnd.random() < 0.7})
         elif k == 'pack':
             ops.append({'op': 'pack', 'compress': rnd.choice(MODES + ['true', 'false']), 'clean_per_pack': rnd.random() < 0.5,
                         'validate': rnd.random() < 0.5, 'do_fsync': rnd.random() < 0.8})
@@ -182,7 +182,7 @@ def gen_history(rnd: random.Random, nsteps: int, profile: str = 'mixed', big: bo
             ops.append({'op': 'import', 'add': [(rnd.randrange(n), rnd.choice(['loose', 'pack', 'packz'])) for _ in range(rnd.randint(0, 4))],
                         'src_pack': rnd.random() < 0.3, 'frac': rnd.random(), 'sel_seed': rnd.randrange(1 << 30), 'compress': rnd.random() < 0.5,
                         'tmb': rnd.choice([1, 20, 100, 10 ** 6]), 'iterable': rnd.choice(['list', 'tuple', 'set', 'generator']),
-                        'callback': rnd.random() < 0.4, 'absent': rnd.random() < 0.5, 'repeat': rnd.random() < 0.4})
+                        'callback': rnd.random() < 0.4, 'absent': rnd.random() < 0.5, 'repeat': rnd.random() < 0.4, 'do_fsync': rnd.random() < 0.7})
             if rnd.random() < 0.25:
                 # the zero-length object: requested alone, or together with objects that all bypass the cache (budget 1)
                 ops[-1]['empty'] = rnd.choice(['alone', 'streamed_rest'])
@@ -194,7 +194,7 @@ def gen_history(rnd: random.Random, nsteps: int, profile: str = 'mixed', big: bo
         elif k == 'src_pack':
             ops.append({'op': 'src_pack'})
         elif k == 'damage_loose':
-            ops.append({'op': 'damage_loose', 'i': rnd.randrange(n)})
+            ops.append({'op': 'damage_loose', 'i': rnd.randrange(n), 'same_len': rnd.random() < 0.5})
         elif k == 'plant_dup':
             ops.append({'op': 'plant_dup', 'i': rnd.randrange(n), 'good': rnd.random() < 0.5})
         else:
@@ -305,7 +305,7 @@ class Runner:
             self.model[r] = b
         elif k in ('topack', 'topack_stream'):
             bs = [pool[i] for i in op['idx']]
-            kw = dict(compress=op['compress'], no_holes=op['no_holes'], no_holes_read_twice=op['read_twice'])
+            kw = dict(compress=op['compress'], no_holes=op['no_holes'], no_holes_read_twice=op['read_twice'], do_fsync=op.get('do_fsync', True))
             if k == 'topack':
                 r = c.add_objects_to_pack(bs, **kw)
             else:
@@ -382,7 +382,7 @@ class Runner:
             sizes = [len(self.srcmodel[x]) for x in distinct_present]
             for s in sizes:
                 self.stats['import_branches'].add('stream' if s > op['tmb'] else 'cache')
-            m = c.import_objects(it, self.src, compress=op['compress'], target_memory_bytes=op['tmb'], callback=cb)
+            m = c.import_objects(it, self.src, compress=op['compress'], target_memory_bytes=op['tmb'], callback=cb, do_fsync=op.get('do_fsync', True))
             for ok, nk in m.items():
                 if ok not in self.srcmodel or nk != H(ht, self.srcmodel[ok]):
                     raise Fail({'C14'}, f'import mapping sends {ok[:8]} to {nk[:8]}')
@@ -417,7 +417,9 @@ class Runner:
             p = c._get_loose_path_from_hashkey(kk)
             if kk in self.model and os.path.exists(p):
                 with open(p, 'wb') as f:
-                    f.write(b'damaged!')
+                    orig = pool[op['i']]
+                    # damaged in place at the same length (a flipped byte), or replaced by other bytes
+                    f.write(bytes([orig[0] ^ 0x5a]) + orig[1:] if (op.get('same_len') and orig) else b'damaged!')
                 r = c.add_object(pool[op['i']])
                 with open(p, 'rb') as f:
                     now = f.read()
